@@ -54,13 +54,15 @@ def main():
                 p = run(["git", "-C", REPO, "apply", patch])
                 if p.returncode != 0:
                     rows.append((name, pid, "PATCH-DOES-NOT-APPLY", 0, ""))
+                    print("%-34s %-4s %-22s" % rows[-1][:3], flush=True)
                     continue
             else:
                 scratch = tempfile.mkdtemp(prefix="selftest_%s_" % name, dir="/tmp")
                 shutil.copytree(os.path.join(REPO, "rkcommon"), os.path.join(scratch, "rkcommon"))
                 p = run(["patch", "-p1", "-s", "-d", scratch, "-i", patch])
                 if p.returncode != 0:
-                    rows.append((name, pid, "PATCH-DOES-NOT-APPLY", 0, p.stdout.decode()[-300:]))
+                    rows.append((name, pid, "PATCH-DOES-NOT-APPLY", 0, p.stdout.decode()[-300:].replace("\n", " ")))
+                    print("%-34s %-4s %-22s" % rows[-1][:3], rows[-1][4], flush=True)
                     continue
                 env["VERIF_REPO"] = scratch
             p = run([sys.executable, os.path.join(HERE, "vcheck.py"), pid, "--tier", a.tier, "--seed", a.seed,
